@@ -499,3 +499,326 @@ class C09(Spec):
 
     def simplifications(self, plan):
         return drive_engine.simplifications(plan)
+
+
+# ============================================================================================
+# C11 isolation / repeatability / no input mutation
+# ============================================================================================
+import hashlib as _hashlib
+import threading as _threading
+
+
+def deep_state(obj, memo=None, depth=0):
+    """canonical, hashable description of an object graph (algo state, tree wiring, frames)"""
+    import numpy as np
+    import pandas as pd
+
+    if memo is None:
+        memo = {}
+    if obj is None or isinstance(obj, (bool, int, str, bytes)):
+        return repr(obj)
+    if isinstance(obj, float):
+        return obj.hex() if obj == obj else "nan"
+    if isinstance(obj, (np.floating, np.integer, np.bool_)):
+        return repr(obj.item())
+    oid = id(obj)
+    if oid in memo:
+        return "<ref %d>" % memo[oid]
+    memo[oid] = len(memo)
+    if isinstance(obj, pd.DataFrame):
+        return ("DF", tuple(map(str, obj.columns)), tuple(map(str, obj.dtypes)), _hashlib.sha1(repr(list(obj.index)).encode()).hexdigest(), _hashlib.sha1(obj.to_numpy(dtype=object).astype(str).tobytes()).hexdigest(), bool(obj.to_numpy().flags.writeable) if len(obj.columns) == 1 else None)
+    if isinstance(obj, pd.Series):
+        return ("SR", str(obj.dtype), _hashlib.sha1(repr(list(obj.index)).encode()).hexdigest(), _hashlib.sha1(obj.to_numpy(dtype=object).astype(str).tobytes()).hexdigest())
+    if isinstance(obj, pd.Index):
+        return ("IX", _hashlib.sha1(repr(list(obj)).encode()).hexdigest())
+    if isinstance(obj, np.ndarray):
+        return ("ND", str(obj.dtype), obj.shape, _hashlib.sha1(obj.astype(str).tobytes()).hexdigest())
+    if isinstance(obj, (pd.Timestamp, pd.DateOffset)):
+        return repr(obj)
+    if depth > 40:
+        return "<deep>"
+    if isinstance(obj, dict):
+        return ("D", tuple((deep_state(k, memo, depth + 1), deep_state(v, memo, depth + 1)) for k, v in obj.items()))
+    if isinstance(obj, (list, tuple)):
+        return ("L", tuple(deep_state(x, memo, depth + 1) for x in obj))
+    if isinstance(obj, (set, frozenset)):
+        return ("S", tuple(sorted(deep_state(x, memo, depth + 1) for x in obj)))
+    if callable(obj) and not hasattr(obj, "__dict__"):
+        return "<fn>"
+    d = getattr(obj, "__dict__", None)
+    if d is None:
+        return "<%s>" % type(obj).__name__
+    skip = ("sim",)
+    return (type(obj).__name__, tuple((k, deep_state(v, memo, depth + 1)) for k, v in sorted(d.items()) if k not in skip))
+
+
+def _digest(x):
+    return _hashlib.sha256(repr(x).encode()).hexdigest()[:20]
+
+
+def history_digest(root):
+    h = _hashlib.sha256()
+    for name, cols in sorted(drive_engine.histories(root).items()):
+        h.update(name.encode())
+        for c in sorted(cols):
+            h.update(c.encode())
+            h.update(cols[c].tobytes())
+    return h.hexdigest()[:20]
+
+
+class Baton(object):
+    """real threads, simulated choice of who runs: every spy / commission call parks the thread;
+    the seeded scheduler releases exactly one thread at a time."""
+
+    def __init__(self, rnd):
+        self.rnd = rnd
+        self.cv = _threading.Condition()
+        self.turn = None
+        self.waiting = set()
+        self.done = set()
+        self.tids = []
+        self.trace = []
+        self.local = _threading.local()
+
+    def yield_(self):
+        tid = getattr(self.local, "tid", None)
+        if tid is None:
+            return
+        with self.cv:
+            self.turn = None
+            self.waiting.add(tid)
+            self.cv.notify_all()
+            while self.turn != tid:
+                self.cv.wait()
+            self.waiting.discard(tid)
+
+    def run(self, jobs):
+        errs = {}
+
+        def wrap(tid, fn):
+            self.local.tid = tid
+            with self.cv:
+                self.waiting.add(tid)
+                self.cv.notify_all()
+                while self.turn != tid:
+                    self.cv.wait()
+                self.waiting.discard(tid)
+            try:
+                fn()
+            except Exception as e:  # noqa
+                errs[tid] = e
+            with self.cv:
+                self.done.add(tid)
+                self.turn = None
+                self.cv.notify_all()
+
+        ths = []
+        for tid, fn in enumerate(jobs):
+            t = _threading.Thread(target=wrap, args=(tid, fn), daemon=True)
+            ths.append(t)
+            t.start()
+        n = len(jobs)
+        with self.cv:
+            while len(self.done) < n:
+                while self.turn is not None or len(self.waiting) + len(self.done) < n:
+                    if not self.cv.wait(timeout=60):
+                        raise RuntimeError("baton scheduler stalled")
+                    if len(self.done) >= n:
+                        break
+                if len(self.done) >= n:
+                    break
+                pick = self.rnd.choice(sorted(self.waiting))
+                self.trace.append(pick)
+                self.turn = pick
+                self.cv.notify_all()
+        for t in ths:
+            t.join(timeout=10)
+        return errs
+
+
+@register
+class C11(Spec):
+    id = "C11"
+    tiers = {"quick": dict(runs=480, builds=("py",), wall=80), "thorough": dict(runs=20000, builds=("py", "cy"), wall=1500)}
+    rule = (
+        "K<=4 backtests are built from one seeded template (stateful and random algos included) and one set of input frames: seeded order of construction and of run(), and - for templates without random algos - "
+        "a seeded interleaving of their steps (baton scheduler: real threads parked at every spy / commission call, one released at a time); every backtest's histories must be byte-identical to the same backtest run alone from a fresh template, "
+        "the template's and the input frames' deep digests must be unchanged, a second run() must be a no-op; a sample of plans is re-run in fresh interpreters under 3 PYTHONHASHSEED values and the digests compared; "
+        "distinct = plan digest; non-trivial = some backtest traded"
+    )
+    assumptions = ["random / numpy.random are re-seeded to the same value before each run() (the property's 'with the random seeds fixed')", "interleaved runs exclude SelectRandomly / WeighRandomly (they share the process-global PRNG by design)"]
+
+    def gen(self, r, tier, i):
+        plan = drive_engine.gen_all_algos_plan(r, tier, stateful=True, random_algos=(i % 2 == 0))
+        # spies inside the stacks are the yield points of the interleaving
+        k = 0
+        for _p, s in drive_engine.trees.strategies(plan["tree"]):
+            st = s.get("algos", [])
+            pos = r.randint(0, len(st))
+            st.insert(pos, {"a": "Spy", "id": k})
+            st.append({"a": "Spy", "id": k + 1, "run_always": True})
+            k += 2
+        plan["K"] = r.randint(2, 4)
+        plan["order_build"] = r.sample(range(plan["K"]), plan["K"])
+        plan["order_run"] = r.sample(range(plan["K"]), plan["K"])
+        plan["seed"] = r.randrange(1 << 30)
+        plan["ileave"] = r.randrange(1 << 30)
+        plan["hashsweep"] = i % 10 == 7
+        if plan["cfg"].get("comm") is None and r.random() < 0.5:
+            plan["cfg"]["comm"] = {"kind": "prop", "rate": 0.001}
+        return plan
+
+    # -- helpers
+    def _ctx(self, bt, plan, baton=None):
+        sim = drive_engine.EngineSim(bt, plan, set())
+        sim.light = True
+        import pandas as pd
+
+        fr = sim.feed.frames(synthetic=False)
+        data = fr["prices"]
+        syn = data.index[0] - pd.DateOffset(days=1)
+        sim._didx = {syn: -1}
+        for i, d in enumerate(data.index):
+            sim._didx[d] = i
+        xd = sim.extra_data()
+        sim.frames_by_name = xd
+        add = {k: v for k, v in fr.items() if k != "prices"}
+        add.update(xd)
+        if baton is not None:
+            sim.spy_hook = lambda spy, target, t: baton.yield_()
+        return sim, data, add
+
+    def _mk(self, bt, plan, sim, template, data, add, k, baton=None):
+        cfg = plan["cfg"]
+        comm = None
+        if cfg.get("comm"):
+            base = commod.make(cfg["comm"])
+            if baton is not None:
+
+                def comm(q, p, base=base):
+                    baton.yield_()
+                    return base(q, p)
+
+            else:
+                comm = base
+        return bt.Backtest(template, data, name="b%d" % k, initial_capital=cfg["capital"] * (1 + k), commissions=comm, integer_positions=cfg["integer"] if k % 2 == 0 else not cfg["integer"], progress_bar=False, additional_data=add or None)
+
+    def _has_random(self, plan):
+        for _p, s in drive_engine.trees.strategies(plan["tree"]):
+            if _nondeterministic(s.get("algos", [])):
+                return True
+        return False
+
+    def digests_alone(self, bt, plan):
+        """each of the K backtests run alone from a fresh template"""
+        out = []
+        for k in range(plan["K"]):
+            sim, data, add = self._ctx(bt, plan)
+            template = drive_engine.trees.build(bt, plan["tree"], algos_for=sim.algos_for)
+            b = self._mk(bt, plan, sim, template, data, add, k)
+            rng.pin_globals(plan["seed"] + k)
+            try:
+                b.run()
+                err = None
+            except Exception as e:  # noqa
+                err = type(e).__name__ + ":" + str(e)[:60]
+            out.append((history_digest(b.strategy) if getattr(b.strategy, "data", None) is not None else None, err, len(sim.spy_log)))
+        return out
+
+    def run(self, bt, plan):
+        import random as _r
+
+        viol = []
+        fired = {}
+        info = {}
+        K = plan["K"]
+        alone = self.digests_alone(bt, plan)
+        traded = False
+        # ---- one template, seeded construction and run order, PRNG perturbation between runs
+        sim, data, add = self._ctx(bt, plan)
+        template = drive_engine.trees.build(bt, plan["tree"], algos_for=sim.algos_for)
+        t0 = _digest(deep_state(template))
+        d0 = _digest(deep_state([data, add]))
+        bs = {}
+        for k in plan["order_build"]:
+            bs[k] = self._mk(bt, plan, sim, template, data, add, k)
+        if _digest(deep_state(template)) != t0:
+            viol.append({"check": "c11_template_mutated", "detail": "constructing backtests changed the strategy template", "flags": {"when": "construct"}})
+        if _digest(deep_state([data, add])) != d0:
+            viol.append({"check": "c11_input_mutated", "detail": "constructing backtests changed the input frames", "flags": {"when": "construct"}})
+        fired["order_permutation"] = 1
+        for k in plan["order_run"]:
+            _r.random()
+            _r.random()  # global_prng_perturb: extra draws between runs
+            fired["global_prng_perturb"] = fired.get("global_prng_perturb", 0) + 1
+            rng.pin_globals(plan["seed"] + k)
+            n0 = len(sim.spy_log)
+            try:
+                bs[k].run()
+                err = None
+            except Exception as e:  # noqa
+                err = type(e).__name__ + ":" + str(e)[:60]
+            nspy = len(sim.spy_log) - n0
+            dg = history_digest(bs[k].strategy) if getattr(bs[k].strategy, "data", None) is not None else None
+            if (dg, err, nspy) != alone[k]:
+                viol.append({"check": "c11_order_dependence", "detail": "backtest %d of %d (build order %s, run order %s) differs from the same backtest run alone: %s vs %s" % (k, K, plan["order_build"], plan["order_run"], (dg, err, nspy), alone[k]), "flags": {}})
+            if err is None:
+                # second run() must not re-run
+                n1 = len(sim.spy_log)
+                try:
+                    bs[k].run()
+                except Exception as e:  # noqa
+                    viol.append({"check": "c11_rerun", "detail": "run() on a finished backtest raised %s" % type(e).__name__, "flags": {}})
+                fired["second_run"] = fired.get("second_run", 0) + 1
+                if len(sim.spy_log) != n1 or history_digest(bs[k].strategy) != dg:
+                    viol.append({"check": "c11_rerun", "detail": "run() on a finished backtest ran the strategy again", "flags": {}})
+                if (bs[k].strategy.positions.to_numpy() != 0).any() if len(bs[k].strategy.positions.columns) else False:
+                    traded = True
+        if _digest(deep_state(template)) != t0:
+            viol.append({"check": "c11_template_mutated", "detail": "running backtests changed the strategy template they were built from", "flags": {"when": "run"}})
+        if _digest(deep_state([data, add])) != d0:
+            viol.append({"check": "c11_input_mutated", "detail": "running backtests changed the input frames", "flags": {"when": "run"}})
+        # ---- interleaved steps (deterministic templates only)
+        if not self._has_random(plan):
+            baton = Baton(_random.Random(plan["ileave"]))
+            sim2, data2, add2 = self._ctx(bt, plan, baton=baton)
+            template2 = drive_engine.trees.build(bt, plan["tree"], algos_for=sim2.algos_for)
+            bs2 = [self._mk(bt, plan, sim2, template2, data2, add2, k, baton=baton) for k in range(K)]
+            errs = baton.run([b.run for b in bs2])
+            fired["interleave"] = 1
+            info["interleave_switches"] = len(baton.trace)
+            for k in range(K):
+                e = errs.get(k)
+                err = None if e is None else type(e).__name__ + ":" + str(e)[:60]
+                dg = history_digest(bs2[k].strategy) if getattr(bs2[k].strategy, "data", None) is not None else None
+                if (dg, err) != alone[k][:2]:
+                    viol.append({"check": "c11_interleaving", "detail": "backtest %d of %d interleaved step by step with the others (schedule seed %d, %d switches) differs from running alone: %s vs %s" % (k, K, plan["ileave"], len(baton.trace), (dg, err), alone[k][:2]), "flags": {}})
+        # ---- other interpreters, other hash seeds (sampled: a fresh process costs seconds)
+        if plan.get("hashsweep"):
+            import json as _json
+            import os as _os
+            import subprocess as _sp
+            import sys as _sys
+
+            from . import runner as _runner
+
+            for hs in ("1", "7919"):
+                env = dict(_os.environ)
+                env["PYTHONHASHSEED"] = hs
+                env["BT_VERIF_PINNED"] = "1"
+                p = _sp.run([_sys.executable, "-u", _os.path.join(_os.path.dirname(_os.path.abspath(__file__)), "hashseed_child.py")], input=_json.dumps({"plan": plan, "snap": _runner._SNAP, "compiled": _runner._BUILD == "cy"}), env=env, stdout=_sp.PIPE, stderr=_sp.PIPE, text=True, timeout=600)
+                fired["hashseed"] = fired.get("hashseed", 0) + 1
+                if p.returncode != 0:
+                    raise RuntimeError("hashseed child failed: " + p.stderr[-800:])
+                other = [tuple(x) for x in _json.loads(p.stdout.strip().splitlines()[-1])]
+                if other != [tuple(x) for x in alone]:
+                    viol.append({"check": "c11_process_dependence", "detail": "a fresh interpreter with PYTHONHASHSEED=%s gives %s, this process (PYTHONHASHSEED=%s) %s" % (hs, other, _os.environ.get("PYTHONHASHSEED"), alone), "flags": {}})
+                    break
+        info["K"] = K
+        return dict(viol=viol, fired=fired, nontrivial=traded, info=info, dates=len(plan["feed"]["dates"]) * K * 3, steps=len(sim.spy_log))
+
+    def owns(self, check):
+        return check.startswith("c11_")
+
+    def simplifications(self, plan):
+        return drive_engine.simplifications(plan)
